@@ -403,3 +403,38 @@ def run(F, S, R, tier):
     R.guard("cmp/limits", limits)
     import common as _common
     _common.effects(R, F, ['pool'])
+
+    # F30 (fixed) / F31 (known finding): the members of a dep group are dependencies as well. The pool registers its deps edges with the
+    # expanded set (ResolvedTransaction::related_dep_out_points); every other place that reasons about "what this transaction depends on" has to use
+    # the expanded set too: (F30) the RBF rule "the replacement must not depend on what it replaces" - a group cell on chain can name the output
+    # of a pooled transaction; (F31) the parents of a new entry (get_tx_ancenstors), otherwise a transaction that depends on a pooled one through
+    # a group member is a child in `edges` but not in `links`, and stays behind when its parent leaves.
+    def dep_scope():
+        rbf = F.need("ckb_tx_pool::pool::TxPool::check_rbf")
+        R.fn(rbf)
+        direct = [c for b in K.with_nested(rbf) for c in b.calls if re.search(r"TransactionView::cell_deps_iter$|::cell_deps$", c.callee)]
+        expanded = any(re.search(r"ResolvedTransaction\.resolved_cell_deps$|resolved_dep_groups$", x) for b in K.with_nested(rbf) for l in range(len(b.rec.get("locals") or [])) for x in b.local_sources(l) if x.startswith("field:")) \
+            or any(re.search(r"related_dep_out_points$", c.callee) for b in K.with_nested(rbf) for c in b.calls)
+        R.sites += len(direct)
+        if not direct and not expanded:
+            R.bad("prov/rbf-dep-scope/anchor-lost", "check_rbf no longer looks at the replacement's cell deps", [rbf.where()])
+        elif expanded:
+            R.ok("prov/rbf-dep-scope", "check_rbf compares the conflicts' outputs with the direct cell deps and the resolved (expanded) ones", [rbf.where()])
+        else:
+            R.bad("prov/rbf-dep-scope", "check_rbf walks the direct cell deps only: a dep group on chain whose member is an output of a replaced transaction passes, the replacement "
+                  "is pooled with a dependency that resolves nowhere (F30)", [direct[0].where()])
+        ed = [b for b in F.bodies_of_crate("ckb_tx_pool") if re.search(r"pool_map::PoolMap::record_entry_edges$", b.path)]
+        an = [b for b in F.bodies_of_crate("ckb_tx_pool") if re.search(r"pool_map::PoolMap::get_tx_ancenstors$", b.path)]
+        if not ed or not an:
+            R.bad("sibling/link-directions/anchor-lost", "record_entry_edges / get_tx_ancenstors not found", [])
+            return
+
+        def uses_expanded(b):
+            return any(re.search(r"related_dep_out_points$", c.callee) for x in K.with_nested(b) for c in x.calls)
+        R.fn(ed[0]); R.fn(an[0])
+        if uses_expanded(ed[0]) and not uses_expanded(an[0]):
+            R.bad("sibling/link-directions/get_tx_ancenstors", "the deps edges are registered with the expanded dep set (related_dep_out_points) but the parents of a new entry are looked up through "
+                  "the direct cell deps only: a dependency through a dep-group member makes the entry a child in `edges` and not in `links` (F31)", [an[0].where()])
+        else:
+            R.ok("sibling/link-directions/get_tx_ancenstors", "edges and parent lookup use the same dep set", [an[0].where()])
+    R.guard("prov/rbf-dep-scope", dep_scope)
